@@ -20,11 +20,13 @@ type ChunkPlan struct {
 	EOFWithData bool   `json:"eof_with_data,omitempty"` // last bytes returned together with io.EOF
 	FaultAt     int    `json:"fault_at,omitempty"`      // 0 = no fault; else the read that would pass this byte offset fails after delivering bytes up to it
 	FaultKind   string `json:"fault_kind,omitempty"`    // eio | reset | unexpected_eof
+	CloseErr    bool   `json:"close_err,omitempty"`     // Close reports an error (all bytes may have been delivered by then)
 }
 
 var (
 	ErrSimEIO   = errors.New("simulated I/O error")
 	ErrSimReset = errors.New("simulated connection reset by peer")
+	ErrSimClose = errors.New("simulated error on close")
 )
 
 // Stream is an io.ReadCloser with net/http request-body semantics for reads
@@ -49,6 +51,7 @@ type Stream struct {
 	ReadsByParty map[string]int
 	ReadAfterEOF int
 	sawEOF       bool
+	CloseErrs    int // times Close reported the planned error
 }
 
 func NewStream(name string, data []byte, plan ChunkPlan, log *simfw.Log, party *string) *Stream {
@@ -149,6 +152,13 @@ func (s *Stream) Read(p []byte) (n int, err error) {
 func (s *Stream) Close() error {
 	s.Closes++
 	s.closed = true
+	if s.Plan.CloseErr {
+		s.CloseErrs++
+		if s.Log != nil {
+			s.Log.Add(s.party(), "close:"+s.Name, "", "err="+ErrSimClose.Error())
+		}
+		return ErrSimClose
+	}
 	if s.Log != nil {
 		s.Log.Add(s.party(), "close:"+s.Name, "", "")
 	}
